@@ -49,7 +49,8 @@ def _setup():
     return gs, kb
 
 
-VARIANTS = ["simple", "ordinary", "universal", "extdrift", "detrended"]
+VARIANTS = ["simple", "ordinary", "universal", "extdrift", "detrended", "general"]
+# "general": Krige(mean, trend function, LogNormal normalizer) -- the order detrend -> normalise -> remove mean and its inverse
 
 
 class Recorder:
@@ -76,6 +77,8 @@ def build(gs, variant, dim, ncond, sy, exact=False, cond_err="nugget", normalize
         k = gs.krige.Universal(model, cp, cv, "linear", normalizer=normalizer, **common)
     elif variant == "extdrift":
         k = gs.krige.ExtDrift(model, cp, cv, list(sy["cext"]), normalizer=normalizer, **common)
+    elif variant == "general":
+        k = gs.krige.Krige(model, cp, cv, mean=sy["mean"], trend=sy["trend_fn"], normalizer=gs.normalizer.LogNormal(), unbiased=False, **common)
     else:
         k = gs.krige.Detrended(model, cp, cv, sy["trend_fn"], **common)
     return k, model
@@ -183,6 +186,9 @@ def job_system(variant, dim, ncond, ntar, exact, errmode, aniso, tier):
         for e in sy["err"]:
             sym.assume(e >= 0)
         cond_err = "nugget" if errmode == "nugget" else (sy["err"][0] if errmode == "scalar" else list(sy["err"]))
+        if variant == "general":
+            for i in range(ncond):  # domain of the log-normaliser: detrended data positive
+                sym.assume(sy["cval"][i] > Sym(sy["TR"](*[sy["cpos"][a][i].e for a in range(dim)])))
         k, model = build(gs, variant, dim, ncond, sy, exact=exact, cond_err=cond_err, aniso=aniso)
         # capture the right-hand sides handed to the kernel
         vecs = []
@@ -286,12 +292,25 @@ def job_system(variant, dim, ncond, ntar, exact, errmode, aniso, tier):
                     out.append(prove(f"{base}/rhs[{i},{t}]==textbook (drift at original coordinates)", C, g, T, witness_vars=wv, replay=rb, pairwise=False))
                 else:
                     out.append(prove(f"{base}/rhs[{i},{t}]==textbook", C, lift(kv_all[i, t]) == ref, T, witness_vars=wv, replay=rb, pairwise=False, extra=hints))
+        # ---- (b') every chunk of the chunked call is handed the same right-hand side column (and the same data vector)
+        nfull = 1
+        chunks = vecs[nfull:]
+        if len(chunks) != ntar or any(c_[0].shape[1] != 1 for c_ in chunks):
+            out.append(rec(base + "/chunk_size=1 gives one kernel call per target", "sat", witness={}, replay={"kind": "system", "inputs": rb[1]({})}, detail=f"{[c_[0].shape for c_ in chunks]}"))
+        else:
+            for t in range(ntar):
+                for i in range(size):
+                    out.append(prove(f"{base}/chunk[{t}] rhs[{i}]==unchunked rhs[{i},{t}]", C, lift(chunks[t][0][i, 0]) == lift(kv_all[i, t]), T, witness_vars=wv, replay=rb, pairwise=False))
+                    out.append(prove(f"{base}/chunk[{t}] data[{i}]==unchunked data[{i}]", C, lift(chunks[t][1][i]) == lift(cond_vec[i]), T, witness_vars=wv, replay=rb, pairwise=False))
         # ---- (f) prepared data
         for i in range(size):
             if i < ncond:
-                tr = sy["TR"](*cpts[i]) if variant == "detrended" else z3.RealVal(0)
-                mean = sy["mean"].e if variant == "simple" else z3.RealVal(0)
-                ref = sy["cval"][i].e - tr - mean
+                tr = sy["TR"](*cpts[i]) if variant in ("detrended", "general") else z3.RealVal(0)
+                mean = sy["mean"].e if variant in ("simple", "general") else z3.RealVal(0)
+                ref = sy["cval"][i].e - tr
+                if variant == "general":
+                    ref = theory.UF["log"](ref)
+                ref = ref - mean
             else:
                 ref = z3.RealVal(0)
             out.append(prove(f"{base}/cond[{i}]==normalize(val-trend)-mean, zero padded", C, lift(cond_vec[i]) == ref, T, witness_vars=wv, replay=rb, pairwise=False))
@@ -302,9 +321,12 @@ def job_system(variant, dim, ncond, ntar, exact, errmode, aniso, tier):
             cz = [lift(cond_vec[i]) for i in range(size)]
             est = z3.Sum([cz[i] * Mz[i][j] * kz[j] for i in range(size) for j in range(size)])
             qf = z3.Sum([kz[i] * Mz[i][j] * kz[j] for i in range(size) for j in range(size)])
-            tr = sy["TR"](*tpts[t]) if variant == "detrended" else z3.RealVal(0)
-            mean = sy["mean"].e if variant == "simple" else z3.RealVal(0)
-            out.append(prove(f"{base}/estimate[{t}]==trend+mean+z^T M k", C, lift(fld[t]) == tr + mean + est, T, witness_vars=wv, replay=rb, pairwise=False))
+            tr = sy["TR"](*tpts[t]) if variant in ("detrended", "general") else z3.RealVal(0)
+            mean = sy["mean"].e if variant in ("simple", "general") else z3.RealVal(0)
+            if variant == "general":
+                out.append(prove(f"{base}/estimate[{t}]==trend+denormalize(mean+z^T M k)", C, lift(fld[t]) == tr + theory.UF["exp"](mean + est), T, witness_vars=wv, replay=rb, pairwise=False))
+            else:
+                out.append(prove(f"{base}/estimate[{t}]==trend+mean+z^T M k", C, lift(fld[t]) == tr + mean + est, T, witness_vars=wv, replay=rb, pairwise=False))
             sill = sy["var"].e + sy["nug"].e
             out.append(prove(f"{base}/variance[{t}]==max(sill-k^T M k,0)", C, lift(var[t]) == z3.If(sill - qf >= 0, sill - qf, z3.RealVal(0)), T, witness_vars=wv, replay=rb, pairwise=False))
             out.append(prove(f"{base}/chunked estimate[{t}]==unchunked", C, lift(fld_c[t]) == lift(fld[t]), T, witness_vars=wv, replay=rb, pairwise=False))
@@ -450,7 +472,11 @@ def jobs(tier, seed):
     big = tier == "thorough"
     js = []
     dims = (1, 2, 3) if big else (1, 2)
-    for variant in VARIANTS:
+    js.append(Job("system-general-d1", job_system, "general", 1, 2, 1, False, "nugget", False, tier))
+    if big:
+        js.append(Job("system-general-d2", job_system, "general", 2, 2, 1, False, "nugget", False, tier))
+        js.append(Job("system-general-exact", job_system, "general", 1, 2, 1, True, "nugget", False, tier))
+    for variant in VARIANTS[:5]:
         for dim in dims:
             nc = 3 if (big or (variant == "ordinary" and dim == 1)) else 2
             js.append(Job(f"system-{variant}-d{dim}", job_system, variant, dim, nc, 3 if big else 2, False, "nugget", False, tier))
@@ -530,6 +556,9 @@ def replay_system(inputs):
         k = gs.krige.Universal(model, cp, cv, "linear", **common)
     elif variant == "extdrift":
         k = gs.krige.ExtDrift(model, cp, cv, cext, **common)
+    elif variant == "general":
+        cv = trend(*cp) + np.abs(cv) + 0.1
+        k = gs.krige.Krige(model, cp, cv, mean=mean, trend=trend, normalizer=gs.normalizer.LogNormal(), unbiased=False, **common)
     else:
         k = gs.krige.Detrended(model, cp, cv, trend, **common)
     kw2 = {"ext_drift": text} if variant == "extdrift" else {}
@@ -569,20 +598,25 @@ def replay_system(inputs):
         kvec = np.concatenate([c0, [ft[t] for _, ft in rows]])
         if not np.allclose(kv_lib[:, t], kvec, rtol=1e-9, atol=1e-11):
             bad.append(f"rhs[{t}] library={kv_lib[:, t].tolist()} textbook={kvec.tolist()}")
+        kv_chunk = k._get_krige_vecs(it, (t, t + 1), ext_arg, False)
+        if kv_chunk.shape != (size, 1) or not np.allclose(kv_chunk[:, 0], kv_lib[:, t], rtol=1e-12, atol=1e-14):
+            bad.append(f"rhs of chunk ({t},{t + 1}) = {kv_chunk[:, 0].tolist()} != column {t} of the unchunked rhs {kv_lib[:, t].tolist()}")
     if bad:
         return False, f"variant={variant} cond_pos={cp.tolist()} targets={tp.tolist()} {par} {kw} failing={bad}"
     if np.linalg.cond(K) > 1e10:
         return True, "assembly agrees; system numerically singular (solution not compared)"
-    tr_c = trend(*cp) if variant == "detrended" else 0.0
-    tr_t = trend(*tp) if variant == "detrended" else 0.0
-    mu = mean if variant == "simple" else 0.0
-    z = np.concatenate([cv - tr_c - mu, np.zeros(len(rows))])
+    tr_c = trend(*cp) if variant in ("detrended", "general") else 0.0
+    tr_t = trend(*tp) if variant in ("detrended", "general") else 0.0
+    mu = mean if variant in ("simple", "general") else 0.0
+    z = np.concatenate([(np.log(cv - tr_c) if variant == "general" else cv - tr_c) - mu, np.zeros(len(rows))])
+    if not np.allclose(k._krige_cond, z, rtol=1e-9, atol=1e-11):
+        bad.append(f"prepared data {k._krige_cond.tolist()} != normalize(val-trend)-mean {z.tolist()}")
     for t in range(ntar):
         d0 = np.linalg.norm(ic - it[:, t : t + 1], axis=0)
         c0 = model.cov_nugget(d0) if exact else model.covariance(d0)
         kvec = np.concatenate([c0, [ft[t] for _, ft in rows]])
         w = np.linalg.solve(K, kvec)
-        est = (tr_t[t] if variant == "detrended" else 0.0) + mu + z @ w
+        est = (tr_t[t] + np.exp(mu + z @ w)) if variant == "general" else ((tr_t[t] if variant == "detrended" else 0.0) + mu + z @ w)
         va = max(model.sill - kvec @ w, 0.0)
         if not np.isclose(fld[t], est, rtol=1e-6, atol=1e-8):
             bad.append(f"estimate[{t}] library={fld[t]} direct solve={est}")
